@@ -25,7 +25,7 @@ let kind_of s =
   | _ when starts "LogSuper" s -> KLogSuper (n_of_int (int_of_string (after "LogSuper" s)))
   | _ -> failwith ("kind " ^ s)
 let other_of = function
-  | "int" -> OB KInt | "float" -> OB KFloat | "str" -> OB KStr | "none" -> OB KNone | "list" -> OB KList | "markup" -> OB KMarkup
+  | "int" -> OB KInt | "float" -> OB KFloat | "str" -> OB KStr | "none" -> OB KNone | "list" -> OB KList | "markup" -> OB KMarkup | "bool" -> OB KBool | "tuple" -> OB KTuple | "dict" -> OB KDict | "bytes" -> OB KBytes
   | "same" -> OSame | "plain" -> OPlain | s -> failwith ("other " ^ s)
 let arith_of = function "add" -> Add | "sub" -> Sub | "mul" -> Mul | "div" -> Div | "floordiv" -> FloorDiv | "mod" -> Mod | "pow" -> Pow | s -> failwith s
 let cmp_of : string -> cmp = function "eq" -> CEq | "ne" -> CNe | "lt" -> CLt | "le" -> CLe | "gt" -> CGt | "ge" -> CGe | s -> failwith s
